@@ -64,7 +64,16 @@ pub fn gen_float(rng: &mut Rng, sw: &Swarm) -> Op {
                 Op::new(&nm("tof")).a(a).form(rng.below(2))
             }
         }
-        36 | 37 => Op::new(rng.pick(&["fd.todec", "fd.tobin", "fd.rounding", "fd.viahex", "fd.viaoct"])).a(a).dst(d),
+        36 | 37 => {
+            let name = rng.pick(&["fd.todec", "fd.tobin", "fd.rounding", "fd.viahex", "fd.viaoct", "fd.todecp", "fd.tobinp"]);
+            let o = Op::new(name).a(a).dst(d);
+            if name.ends_with('p') {
+                // explicit target precision, mostly smaller than what the source holds
+                o.n(if rng.chance(3, 4) { 1 + rng.below(24) as i64 } else { rng.below(300) as i64 })
+            } else {
+                o
+            }
+        }
         38 => Op::new(&nm("rt")).a(a).dst(d).form(rng.below(9)).n(rng.below(40) as i64),
         _ => Op::new(&nm("clonefrom")).a(a).dst(d),
     }
